@@ -134,6 +134,11 @@ PromPaths(s, c, D) ==
       keysBad == "DEV_WriteNeedsEqualKeys" \in D /\ KeyClash(s, c, D)
   IN [metrics |-> IF helpBad THEN Failed ELSE all,
       write   |-> IF helpBad \/ keysBad THEN Failed ELSE all]
+\* the open deviations that matter for one scrape path of this store: taken alone it departs from the ideal, or
+\* without it the expectation changes (two deviations may each be sufficient, or one may mask another)
+Blame(s, c, path) ==
+  {d \in Explain : \/ PromPaths(s, c, {d})[path] # [ok |-> TRUE, samples |-> PromIdeal(s, c)]
+                   \/ PromPaths(s, c, Explain \ {d})[path] # PromPaths(s, c, Explain)[path]}
 IdealPaths(s, c) == [metrics |-> [ok |-> TRUE, samples |-> PromIdeal(s, c)], write |-> [ok |-> TRUE, samples |-> PromIdeal(s, c)]]
 
 -----------------------------------------------------------------------------
@@ -264,8 +269,8 @@ Emit == EmitCases =>
      THEN [store |-> store, cfg |-> cfg,
            want |-> PromIdeal(store, cfg),
            want_dev |-> PromPaths(store, cfg, Explain),
-           \* the open deviations without which this store would be exported as the ideal says
-           blame |-> {d \in Explain : PromPaths(store, cfg, Explain \ {d}) # PromPaths(store, cfg, Explain)}]
+           \* per scrape path: the open deviations whose removal changes what that path is expected to deliver
+           blame |-> [metrics |-> Blame(store, cfg, "metrics"), write |-> Blame(store, cfg, "write")]]
      ELSE [store |-> store, cfg |-> cfg,
            want |-> [json |-> JsonIdeal(store), varz |-> VarzIdeal(store, cfg), graphite |-> GraphiteIdeal(store),
                      scalar |-> ScalarIdeal(store)],
